@@ -139,7 +139,7 @@ def run(exe, args, stdin_data=None, stdin_path=None, env=None, timeout=120, work
     os.makedirs(wd, exist_ok=True)
     _counter[0] += 1
     uid = "%s_%d_%d" % (tag, os.getpid(), _counter[0])
-    argv = [exe] + list(args)
+    argv = (list(exe) if isinstance(exe, (list, tuple)) else [exe]) + list(args)
     stats_path = out_path = None
     if stats:
         stats_path = os.path.join(wd, uid + "." + stats)
